@@ -166,3 +166,48 @@ Definition explain (c : case) : list (option Z) * option (list Z) * list (option
   | CShufS rs v r => ([], shuffle_script rs v, [])
   | CShufR n obs | CShufAll n obs => ([], None, map (fun p => shuffle_rng (fst p) (zseq n)) obs)
   end.
+
+(** * scope of the theorem [model_check c = true -> spec_check c = true] (ProofsCorr.v)
+    [in_scope c] collects (1) the validity conditions on the parameters of a case that the
+    model theorems need (the generator in checks/c14.py only produces valid ones) and (2) the
+    clauses of [spec_check] that are NOT consequences of the model theorems and are therefore
+    kept as hypotheses (they are still decided by computation in [batch_spec]). *)
+(** the width of an integer type: the theorems hold for 1..64 (the Rust types are 8, 16, 32, 64) *)
+Definition width_ok (w : Z) : bool := (1 <=? w) && (w <=? 64).
+(** the bounds of a range are values of the type (boolean form of [Spec.form_valid]) *)
+Definition form_ok (sg : bool) (w : Z) (f : form) : bool :=
+  match f with
+  | FRange s e | FIncl s e => in_ty sg w s && in_ty sg w e
+  | FTo e | FToIncl e => in_ty sg w e
+  | FFull => true
+  end.
+Definition in_scope (c : case) : bool :=
+  match c with
+  (** validity of the type and of the bounds; nothing is asked of the raws (the theorems hold for every raw in Z) *)
+  | CInt sg w f _ => width_ok w && form_ok sg w f
+  (** the same; the reachability sweep IS proved (raws 0..k-1 contain the witness raw of every value) *)
+  | CReach sg w f _ => width_ok w && form_ok sg w f
+  (** no condition: every bit pattern decodes to a canonical binary64 and the model's result is canonical *)
+  | CFloat _ _ _ _ => true
+  (** no condition (not even on the seed: the first state transition reduces modulo 2^64) *)
+  | CRaw _ _ => true
+  (** validity, and the [aperiodic] test on streams of >= 64 draws from >= 2 values kept as a
+      hypothesis: absence of short periods is a statistical property of the concrete generator,
+      not a consequence of the model theorems (cf. c14_old_low_bits_periodic for a generator
+      that fails it).  Length and range membership of every stream are proved. *)
+  | CStream sg w f _ n r =>
+      width_ok w && form_ok sg w f
+      && match r with
+         | Some l => if (64 <=? n)%N && (form_lo sg w f <? form_hi sg w f) then aperiodic l else true
+         | None => true
+         end
+  (** the two observed continuations have the same length (a shorter one would be a prefix, not equal) *)
+  | CCopy _ _ a b => Nat.eqb (length a) (length b)
+  (** a slice has at most 2^64 elements (otherwise the index range 0..=i leaves usize and the model panics) *)
+  | CShufS _ v _ => Z.of_nat (length v) <=? 2 ^ 64
+  (** no condition *)
+  | CShufR _ _ => true
+  (** the all-orders coverage kept as a hypothesis: it depends on the list of seeds tried (for the
+      seed lists of Spec.seeds_for it is c14_fairness_partial); that every result is a permutation is proved *)
+  | CShufAll n obs => forallb (fun p => existsb (fun o => lzeqb (snd o) p) obs) (perms (zseq n))
+  end.
